@@ -192,8 +192,16 @@ package repository
 //@   ensures (result1 == nil) == clockExists(name)
 // Every clock loader that declares a clock which does not exist is scheduled to run (its Witnesser rebuilds the
 // clocks of its entities from the stored data) - whichever of its clocks is the missing one.
+// detectedGitDir: the git directory found for the path the user is in (ghost record of detectGitPath)
+//@ ghost var detectedGitDir string
+//@ func detectGitPath
+//@   trusted
+//@   modifies detectedGitDir
+//@   ensures result1 == nil ==> detectedGitDir == result
 //@ func OpenGoGitRepo
-//@   props C05
+//@   props C05 C15
+//@   opt storage
+//@   stable detectedGitDir
 //@   check [incomplete-loader-is-run] err == nil ==> (forall k int :: { clockLoaders[k] } 0 <= k && k < len(clockLoaders) && (exists j int :: { clockLoaders[k].Clocks[j] } 0 <= j && j < len(clockLoaders[k].Clocks) && !clockExists(clockLoaders[k].Clocks[j])) ==> (exists i int :: { loaderToRun[i] } 0 <= i && i < len(loaderToRun) && loaderToRun[i] == clockLoaders[k]))
 //@   loop 1
 //@     invariant [fresh] loaderToRun == nil || fresh(loaderToRun)
@@ -211,3 +219,11 @@ package repository
 //@   props C14
 //@   requires cw != nil && cw.repo != nil
 //@   check [whole-section-removed] result == nil && len(split) == 1 && keyPrefix != "" ==> (forall k string :: { (k in cfgKeys) } (k in cfgKeys) == (old(k in cfgKeys) && !strings.HasPrefix(k, keyPrefix + ".")))
+
+// Pushing and fetching add the tracking refspec to the remote's configuration in memory only: the stored
+// configuration of the host repository is never written by them (C15: no foreign configuration key is touched).
+//@ func (*GoGitRepo).PushRefs
+//@ func (*GoGitRepo).FetchRefs
+//@   props C15
+//@   stable git.configWrites
+//@   ensures [configuration-not-written] git.configWrites == old(git.configWrites)
